@@ -520,9 +520,65 @@ func execRepl(t *testing.T, sc Scn) *runOut {
 // ---------------------------------------------------------------------------------------------
 // stream.Merge
 
-type injErr struct{ id int }
+// injErr is an error injected into an input. wraps != nil: the error wraps a context error the way
+// fmt.Errorf("…: %w", context.Canceled) does (errors.Is sees it, identity does not).
+type injErr struct {
+	id    int
+	wraps error
+}
 
-func (e *injErr) Error() string { return fmt.Sprintf("E%d", e.id) }
+func (e *injErr) Error() string {
+	if e.wraps != nil {
+		return fmt.Sprintf("E%d: %v", e.id, e.wraps)
+	}
+	return fmt.Sprintf("E%d", e.id)
+}
+
+func (e *injErr) Unwrap() error { return e.wraps }
+
+// Error ids and what an input's Next returns for them — every one of them is the input's *own*
+// failure; nobody has cancelled the consumer's or Merge's context:
+//
+//	1..9, 40..  an error value of the harness
+//	11..19      an error wrapping context.Canceled
+//	21..29      an error wrapping context.DeadlineExceeded
+//	31          context.Canceled itself
+//	32          context.DeadlineExceeded itself
+const (
+	errBareCanceled = 31
+	errBareDeadline = 32
+)
+
+func injected(id int) error {
+	switch {
+	case id == errBareCanceled:
+		return context.Canceled
+	case id == errBareDeadline:
+		return context.DeadlineExceeded
+	case id >= 11 && id <= 19:
+		return &injErr{id: id, wraps: context.Canceled}
+	case id >= 21 && id <= 29:
+		return &injErr{id: id, wraps: context.DeadlineExceeded}
+	}
+	return &injErr{id: id}
+}
+
+// errID picks the id of the n-th (1-based) error of a scenario: mostly plain, otherwise one of the
+// context-flavoured kinds.
+func errID(r *vlib.Rand, n int) int {
+	d := 1 + (n-1)%9
+	switch r.Pick(8, 3, 2, 3, 2) {
+	case 1:
+		return 10 + d
+	case 2:
+		return 20 + d
+	case 3:
+		return errBareCanceled
+	case 4:
+		return errBareDeadline
+	}
+	return d
+}
 
 type gcmd struct {
 	kind string // item end err
@@ -596,7 +652,7 @@ func (g *gated) Next(ctx context.Context) (interface{}, error) {
 		if g.onErr != nil {
 			g.onErr(c.e)
 		}
-		return nil, &injErr{c.e}
+		return nil, injected(c.e)
 	}
 	g.ended = true
 	return nil, stream.End
@@ -861,6 +917,12 @@ func execSmerge(t *testing.T, sc Scn) *runOut {
 						r = cres{kind: "End"}
 					case errors.As(err, &ie):
 						r = cres{kind: "err", e: ie.id}
+					case err == context.Canceled && ctx.Err() == nil:
+						// this call's context is live: not its error — an input's own context.Canceled
+						r = cres{kind: "err", e: errBareCanceled}
+					case err == context.DeadlineExceeded:
+						// no context of the harness has a deadline
+						r = cres{kind: "err", e: errBareDeadline}
 					case errors.Is(err, context.Canceled) || errors.Is(err, context.DeadlineExceeded):
 						r = cres{kind: "ctx"}
 					default:
@@ -1185,7 +1247,7 @@ func genSmerge(r *vlib.Rand, k int) Scn {
 				seq[i]++
 			}
 			if r.Chance(1, 5) {
-				toks = append(toks, fmt.Sprintf("e%d", r.Range(1, 9)))
+				toks = append(toks, fmt.Sprintf("e%d", errID(r, r.Range(1, 9))))
 			} else {
 				toks = append(toks, "end")
 			}
@@ -1218,7 +1280,7 @@ func genSmerge(r *vlib.Rand, k int) Scn {
 			case 2:
 				term[i] = true
 				errs++
-				sc.Steps = append(sc.Steps, Step{Op: "err", I: i, E: errs})
+				sc.Steps = append(sc.Steps, Step{Op: "err", I: i, E: errID(r, errs)})
 			}
 		case 3:
 			if !closed {
@@ -1289,8 +1351,13 @@ func enumerate(t *testing.T, ms *models, res *vlib.Result, until time.Time) bool
 			}
 			tail = append(tail, Step{Op: "close"}, Step{Op: "drain"})
 		case "smerge":
+			// input 0 fails with a plain error, input 1 with context.Canceled itself, input 2 with an
+			// error wrapping it; a single input with either of the first two
 			for i := 0; i < sp.n; i++ {
-				alpha = append(alpha, Step{Op: "item", I: i}, Step{Op: "end", I: i}, Step{Op: "err", I: i, E: i + 1})
+				alpha = append(alpha, Step{Op: "item", I: i}, Step{Op: "end", I: i}, Step{Op: "err", I: i, E: []int{1, errBareCanceled, 13}[i%3]})
+			}
+			if sp.n == 1 {
+				alpha = append(alpha, Step{Op: "err", I: 0, E: errBareCanceled})
 			}
 			alpha = append(alpha, Step{Op: "cnext", Live: true}, Step{Op: "cnext", Live: false}, Step{Op: "close"})
 			tail = append(tail, Step{Op: "cnext", Live: true}, Step{Op: "close"})
